@@ -22,9 +22,10 @@ UNIVERSES = {
     # two-phase universes: structure alphabet to closure, then the attach/full alphabet one step from every state
     'U4e': ((1, 2, 3, 3), 1, ('b', 'a', 'b', 'c'), False, False),
     'U4s': ((1, 2, 3, 4), 2, ('b', 'a', 'b', 'a'), False, False),
+    'U4o': ((1, 2, 3, 4), 1, ('b', 'a', 'b', 'a'), False, False),
 }
 
-ATTACH_FAMILIES = {'parent', 'list=', 'list+=', '//', '//1', 'append', 'list.parent=', 'W.tasks.parent=', 'Task()'}
+ATTACH_FAMILIES = {'parent', 'list=', 'list+=', '//', '//1', 'append', 'list.parent=', 'W.tasks.parent=', 'Task()', 'list=view', 'list+=view'}
 
 _U = None
 _OPS = None
@@ -36,7 +37,7 @@ def make_universe(name):
     ids, m, names, links_only, ctor = UNIVERSES[name]
     return core.Universe(name, ids, m, names, links_only=links_only, ctor=ctor,
                          alphabet='reach' if name in ('U3x', 'U3xd', 'U2x') else 'attach' if name == 'U3dq' else
-                         'structure' if name in ('U4e', 'U4s') else 'full')
+                         'structure' if name in ('U4e', 'U4s', 'U4o') else 'full')
 
 
 def _dup_ids_abs(U, a):
